@@ -130,6 +130,21 @@ PROPS = {
                      'shutdown while a notification is pending is best effort by design (the property is stated for a running server)'],
         timeout={'quick': 900, 'thorough': 7200},
     ),
+    'C15': dict(
+        props_file='Props/C15.v',
+        components=['c15'],
+        comp_names={15: 'file-system op program of the real FileSnapshotStore under strace', 1501: 'List/Open of a fresh real store on explicit (incl. corrupted) images', 1502: 'List/Open of a fresh real store on materialised crash images'},
+        rule='(15) generated histories (1-5 snapshots, retain 1..3, arbitrary incl. equal and decreasing (term,index), sizes 0..300 bytes, cancelled and unfinished sinks, two sinks open at once) run on the real FileSnapshotStore in child processes under strace; '
+             'the successful syscalls on the store directory, projected to the model alphabet (mkdir/create/write/fsync/rename/fsync-dir/unlink/rmdir with a boundary after every API call), must equal the model program. '
+             '(1502) for every crash point k, surviving directory prefix j in [last fsync, k] and junk code (empty / half / unchanged / garbage appended / last synced content) the tree is materialised by REPLAYING THE OBSERVED SYSCALLS with their captured bytes, '
+             'opened by a fresh real store: List and Open results compared with the model, and checked by monitors that state the property (listed => opens with the bytes written and was renamed; sorted, <= retain; Close returned nil => listed unless retain newer; cancelled/unrenamed => never listed). '
+             '(1501) explicit images incl. corrupted metadata/state. Non-trivial = a Close returned nil / k > 0 / something listed',
+        assumptions=['persistence model: ordered directory operations, fsync is a barrier, unsynced file content arbitrary (stated in Model/FileSnap.v)', 'CRC64 idealised as injective (the model compares contents)',
+                     'sink writes below the 4096-byte bufio buffer (data reaches the file in Close/Cancel); RemoveAll unlink order canonicalised (the real order is also run through the monitors)',
+                     'file system of the sandbox scratch directory; names term-index-msec kept distinct by 2 ms sleeps'],
+        timeout={'quick': 900, 'thorough': 7200},
+        crosscheck=60,
+    ),
     'C13': dict(
         props_file='Props/C13.v',
         components=['c13'],
